@@ -15,4 +15,5 @@ let table : (string * (z list -> z list)) list = [
   ("session", run_session);
   ("client", run_client);
   ("concurrent", run_concurrent);
+  ("connected", run_connected);
 ]
